@@ -24,6 +24,11 @@ pred DBIs(db shared.DBNodeMap) :=
      (forall k string :: {db[k]} {k in db} (k in db) == (k in RDBdom))
   && (forall k string :: {db[k]} k in db ==> db[k] != nil && allocated(db[k]) && arr(db[k].Elements) < alloc() && elems(db[k].Elements) == RDB[k] && len(db[k].Elements) == RDBlen[k] && RDBlen[k] >= 0)
 
+// operand j of the k-th recorded print (fmt.Fprint*; ghost trace prArgs) is the string / the float64 v
+pred PrintedStr(k int, j int, v string) := typeis(prArgs[k][j], "string") && cellat(string, payload(prArgs[k][j])) == v
+pred PrintedInt(k int, j int, v int) := typeis(prArgs[k][j], "int") && cellat(int, payload(prArgs[k][j])) == v
+pred PrintedF(k int, j int, v float64) := typeis(prArgs[k][j], "float64") && cellat(float64, payload(prArgs[k][j])) == v
+
 // every entry of the book is a record
 pred DBOk(db shared.DBNodeMap) := forall k string :: {db[k]} {k in db} k in db ==> db[k] != nil
 
